@@ -13,4 +13,22 @@ theorem void_after_distance : ∀ a : TimeSpec, a.sec = 7 →
     ((({ drift := 0, asOf := a } : Updater).record).map (·.voidAfter.sec)) = some (a.sec + voidAfterSec) := by
   intro a h; simp [Updater.record, chk, inI64, I64_MIN, I64_MAX, h, voidAfterSec]
 
+/-- numbering of the translated FSM table: 0 = Unknown, 1 = Synchronized, 2 = FreeRunning -/
+def stOfNat : Nat → Option Status
+  | 0 => some .unknown | 1 => some .synchronized | 2 => some .freeRunning | _ => none
+def csOfNat : Nat → Option ChronyStatus
+  | 0 => some .unknown | 1 => some .synchronized | 2 => some .freeRunning | _ => none
+
+/-- clock_state_fsm.rs: every row of the transition table extracted from the nine `bstate!` arms is the
+    model's `fsmStep`, and the table has all nine (state, input) pairs -/
+theorem fsm_table_agrees :
+    fsmTable.all (fun r => match stOfNat r.1, csOfNat r.2.1, stOfNat r.2.2 with
+      | some s, some c, some n => fsmStep s c == n
+      | _, _, _ => false) = true
+    ∧ (fsmTable.map (fun r => (r.1, r.2.1))) =
+        [(0,0),(0,1),(0,2),(1,0),(1,1),(1,2),(2,0),(2,1),(2,2)] := by decide
+
+/-- `impl Default for ShmClockState`: the FSM starts where the model's `Updater` starts -/
+theorem fsm_initial_agrees : stOfNat fsmInitial = some ({ drift := 0 } : Updater).fsm := by decide
+
 end ClockBound.ConstsAgree
